@@ -1,6 +1,8 @@
 package mvp7_0
 
 import (
+	"slices"
+
 	"github.com/teivah/majorana/common/log"
 	"github.com/teivah/majorana/common/obs"
 	"github.com/teivah/majorana/proc/comp"
@@ -214,20 +216,31 @@ func (u *controlUnit) shouldUseForwarding(runner *risc.InstructionRunnerPc, haza
 		return false, nil, risc.Zero
 	}
 
-	// Can we use forwarding with an instruction pushed in the previous cycle
-	for previousRunner := range u.pushedRunnersInPreviousCycle {
-		for _, writeRegister := range previousRunner.Runner.WriteRegisters() {
-			for _, readRegister := range runner.Runner.ReadRegisters() {
-				if readRegister == risc.Zero {
-					continue
-				}
-				if readRegister == writeRegister {
-					return true, previousRunner, readRegister
-				}
-			}
+	// Can we use forwarding with an instruction pushed in the previous cycle.
+	// With renaming several writers of the register can be in flight and only
+	// the youngest one holds the value to forward: a writer pushed in the
+	// current cycle is younger than any writer of the previous cycle and can't
+	// forward yet, and two writers pushed in the previous cycle can't be told
+	// apart. In both cases the instruction waits.
+	register := hazards[0].Register
+	for currentRunner := range u.pushedRunnersInCurrentCycle {
+		if slices.Contains(currentRunner.Runner.WriteRegisters(), register) {
+			return false, nil, risc.Zero
 		}
 	}
-	return false, nil, risc.Zero
+	var producer *risc.InstructionRunnerPc
+	for previousRunner := range u.pushedRunnersInPreviousCycle {
+		if slices.Contains(previousRunner.Runner.WriteRegisters(), register) {
+			if producer != nil {
+				return false, nil, risc.Zero
+			}
+			producer = previousRunner
+		}
+	}
+	if producer == nil {
+		return false, nil, risc.Zero
+	}
+	return true, producer, register
 }
 
 func (u *controlUnit) shouldUseRenaming(hazards []risc.Hazard, hazardTypes map[risc.HazardType]bool) bool {
